@@ -44,9 +44,12 @@ def gen_assembly(rng, csafe=False, time_dep=True, max_states=5, min_states=1, al
         decl = "range"
     else:
         states = rng.sample(CSAFE_STATES if csafe else STATE_POOL, nS)
-        decl = rng.choice(["list", "list", "string-comma", "string-space", "string-mixed", "limits"])
+        decl = rng.choice(["list", "list", "string-comma", "string-space", "string-mixed", "limits", "odevariable"])
     params = rng.sample(CSAFE_PARAMS if csafe else PARAM_POOL, nP)
-    pdecl = rng.choice(["list", "list", "string-comma", "string-mixed", "tuple"])
+    pdecl = rng.choice(["list", "list", "string-comma", "string-mixed", "tuple", "odevariable"])
+    # variables declared as ODEVariable objects, some flagged real=False (documented; the model treats every variable as real)
+    state_real = [rng.random() < 0.6 for _ in states]
+    param_real = [rng.random() < 0.6 for _ in params]
     forms = RATE_FORMS if time_dep else [f for f in RATE_FORMS if f != "per"]
     dps = []
     if derived and rng.random() < 0.4:
@@ -78,7 +81,7 @@ def gen_assembly(rng, csafe=False, time_dep=True, max_states=5, min_states=1, al
         for _ in range(rng.randint(1, 2)):
             odes.append([rng.choice(states),
                          gen_rate(rng, states, params, dps, forms) + " - 0.1*" + rng.choice(states)])
-    return {"states": states, "state_decl": decl, "params": params, "param_decl": pdecl,
+    return {"states": states, "state_decl": decl, "params": params, "param_decl": pdecl, "state_real": state_real, "param_real": param_real,
             "derived": dps, "events": events, "odes": odes, "limits": None}
 
 
@@ -125,6 +128,10 @@ def classes(spec):
         c.append("string-declaration")
     if len(spec["states"]) != len(spec["params"]):
         c.append("nS!=nP")
+    if spec.get("huge_population"):
+        c.append("huge-population")
+    if spec.get("state_decl") == "odevariable" or spec.get("param_decl") == "odevariable":
+        c.append("ODEVariable-declaration")
     return c
 
 
@@ -145,6 +152,10 @@ def state_argument(spec):
     if decl == "limits":
         lims = spec.get("limits") or [[0, None]] * len(st)
         return [(s, (l[0], l[1])) for s, l in zip(st, lims)]
+    if decl == "odevariable":
+        from pygom import ODEVariable
+        flags = spec.get("state_real") or [True] * len(st)
+        return [ODEVariable(s, s, units="persons", real=bool(f)) for s, f in zip(st, flags)]
     return st
 
 
@@ -157,6 +168,10 @@ def param_argument(spec):
         return ps[0] + ", " + " ".join(ps[1:]) if len(ps) > 1 else ps[0]
     if decl == "tuple":
         return tuple(ps)
+    if decl == "odevariable":
+        from pygom import ODEVariable
+        flags = spec.get("param_real") or [True] * len(ps)
+        return [ODEVariable(p_, p_, real=bool(f)) for p_, f in zip(ps, flags)]
     return ps
 
 
